@@ -187,11 +187,12 @@ impl<P: MalachiteCtxParams> Ctx for MalachiteCtx<P> {
     fn rnd(&self) -> Self::E {
         let seed = Self::get_seed();
 
-        let one: Natural = Natural::from(1u8);
+        // inclusive range: the largest encodable plaintext is q - 2
+        let two: Natural = Natural::from(2u8);
         let num = uniform_random_natural_inclusive_range(
             seed,
             Natural::from(0u8),
-            &self.params.exp_modulus().0 - one,
+            &self.params.exp_modulus().0 - two,
         )
         .next()
         .expect("impossible: uniform_random_natural_inclusive_range implementation never returns None");
@@ -205,10 +206,11 @@ impl<P: MalachiteCtxParams> Ctx for MalachiteCtx<P> {
     fn rnd_exp(&self) -> Self::X {
         let seed = Self::get_seed();
 
+        // inclusive range: exponents are 0..=(q - 1)
         let num = uniform_random_natural_inclusive_range(
             seed,
             Natural::from(0u8),
-            self.params.exp_modulus().0.clone(),
+            &self.params.exp_modulus().0 - Natural::from(1u8),
         )
         .next()
         .expect("impossible: uniform_random_natural_inclusive_range implementation never returns None");
@@ -216,7 +218,18 @@ impl<P: MalachiteCtxParams> Ctx for MalachiteCtx<P> {
         NaturalX::new(num)
     }
     fn rnd_plaintext(&self) -> Self::P {
-        NaturalP(self.rnd_exp().0)
+        let seed = Self::get_seed();
+
+        // inclusive range: the largest encodable plaintext is q - 2
+        let num = uniform_random_natural_inclusive_range(
+            seed,
+            Natural::from(0u8),
+            &self.params.exp_modulus().0 - Natural::from(2u8),
+        )
+        .next()
+        .expect("impossible: uniform_random_natural_inclusive_range implementation never returns None");
+
+        NaturalP(num)
     }
 
     fn encode(&self, plaintext: &Self::P) -> Result<Self::E, StrandError> {
